@@ -137,3 +137,8 @@ Proof.
 Qed.
 Lemma gen_none_of_is_any_of_in_the_source : gen_pred_none_of = gen_pred_any_of.
 Proof. reflexivity. Qed.
+
+(** no view class claims alignment: loads and stores through a view never take the alignment-requiring
+    path (a view's first element and row pitch are arbitrary) *)
+Lemma gen_views_never_aligned : forallb negb gen_views_is_aligned = true /\ length gen_views_is_aligned = 16.
+Proof. split; reflexivity. Qed.
